@@ -123,44 +123,46 @@ def Sorter.removeFrom (s : Sorter) (t : TierSt) (k : PolicyKey) (old : PolMeta) 
     { tiers := mdel t.name s.tiers, sortedTiers := btDelete tierLess t.key s.sortedTiers }
   else { s with tiers := mset t.name t' s.tiers }
 
-/-- `UpdatePolicy(key, newPolicy)`; returns the new sorter and `dirty`. -/
-def Sorter.updatePolicy (s : Sorter) (k : PolicyKey) (newPol : Option PolMeta) : Sorter × Bool :=
-  let oldTier := s.tierHolding k
-  -- tierName, tierInfo := poc.tierForPolicy(key, newPolicy)
-  let (tierName, tierInfo) : String × Option TierSt := match newPol with
-    | some m => (m.tier, mget s.tiers m.tier)
-    | none => match oldTier with
-      | some t => (t.name, some t)
-      | none => ("", none)
-  -- If the tier has changed, remove from old tier first.
-  let (s, dirty) : Sorter × Bool := match oldTier with
-    | some ot =>
-      if (tierInfo.map (·.name)) ≠ some ot.name then
-        match mget ot.policies k with
-        | some oldPolicy => (s.removeFrom ot k oldPolicy, true)
-        | none => (s, true)
-      else (s, false)
-    | none => (s, false)
-  -- re-read: the tier object is shared by pointer in the Go code
-  let tierInfo : Option TierSt := tierInfo.bind (fun t => mget s.tiers t.name)
-  let oldPolicy : Option PolMeta := tierInfo.bind (fun t => mget t.policies k)
-  match newPol with
-  | some np =>
-    let (s, t) : Sorter × TierSt := match tierInfo with
-      | some t => (s, t)
-      | none =>
-        let t : TierSt := { name := tierName }
-        ({ tiers := mset tierName t s.tiers, sortedTiers := btInsert tierLess t.key s.sortedTiers }, t)
-    let dirty := dirty || (oldPolicy ≠ some np)
-    let sorted := match oldPolicy with
-      | some op => btDelete polKVLess ⟨k, op⟩ t.sorted
-      | none => t.sorted
-    let t' := { t with sorted := btInsert polKVLess ⟨k, np⟩ sorted, policies := mset k np t.policies }
-    ({ s with tiers := mset t.name t' s.tiers }, dirty)
+/-- Second half of `UpdatePolicy` for `newPolicy != nil` ("Now add to new tier"): create the tier
+placeholder if needed, replace the policy's entry in the tier's btree and map. -/
+def Sorter.insertPolicy (s : Sorter) (k : PolicyKey) (np : PolMeta) (dirty : Bool) : Sorter × Bool :=
+  let (s, t) : Sorter × TierSt := match mget s.tiers np.tier with
+    | some t => (s, t)
+    | none =>
+      -- tierInfo = NewTierInfo(tierName); poc.tiers[tierName] = tierInfo; poc.sortedTiers.ReplaceOrInsert(tiKey)
+      let t : TierSt := { name := np.tier }
+      ({ tiers := mset np.tier t s.tiers, sortedTiers := btInsert tierLess t.key s.sortedTiers }, t)
+  let oldPolicy := mget t.policies k
+  let dirty := dirty || (oldPolicy ≠ some np)
+  let sorted := match oldPolicy with
+    | some op => btDelete polKVLess ⟨k, op⟩ t.sorted
+    | none => t.sorted
+  let t' := { t with sorted := btInsert polKVLess ⟨k, np⟩ sorted, policies := mset k np t.policies }
+  ({ s with tiers := mset t.name t' s.tiers }, dirty)
+
+/-- `UpdatePolicy(key, newPolicy)`; returns the new sorter and `dirty`.
+
+`oldTierInfo != tierInfo` (pointer comparison of the tier that holds the key with `tiers[meta.Tier]`,
+nil if absent) is `oldTier.name ≠ meta.Tier`; for `newPolicy == nil` both are the same tier. -/
+def Sorter.updatePolicy (s : Sorter) (k : PolicyKey) : Option PolMeta → Sorter × Bool
   | none =>
-    match tierInfo, oldPolicy with
-    | some t, some op => (s.removeFrom t k op, true)
-    | _, _ => (s, dirty)
+    match s.tierHolding k with
+    | some t =>
+      match mget t.policies k with
+      | some op => (s.removeFrom t k op, true)
+      | none => (s, false)
+    | none => (s, false)
+  | some np =>
+    -- If the tier has changed, remove from old tier first.
+    let (s1, moved) : Sorter × Bool := match s.tierHolding k with
+      | some ot =>
+        if ot.name ≠ np.tier then
+          match mget ot.policies k with
+          | some oldPolicy => (s.removeFrom ot k oldPolicy, true)
+          | none => (s, true)
+        else (s, false)
+      | none => (s, false)
+    s1.insertPolicy k np moved
 
 /-- `OnUpdate` for a `model.TierKey`: `some (order, defaultAction)` = update, `none` = deletion. -/
 def Sorter.onTierUpdate (s : Sorter) (name : String) (v : Option (Option Int × String)) : Sorter × Bool :=
@@ -261,15 +263,19 @@ def Resolver.sendEndpointUpdate (r : Resolver) (sorted : List TierInfo) (e : EpK
   | none => .endpointUpdate e none
   | some ep => .endpointUpdate e (some ⟨ep, filterTiers r.matched e sorted⟩)
 
+/-- Body of the `pendingPolicyUpdates.Iter` loop in `Flush`. -/
+def Sorter.resolvePending (all : List (PolicyKey × PolMeta)) (s : Sorter) (k : PolicyKey) : Sorter :=
+  match mget all k with
+  | some m => (s.updatePolicy k (some m)).1
+  | none => s
+
 /-- `Flush`. `none` = panic inside `Sorted()`. -/
 def Resolver.flush (r : Resolver) : Option (Resolver × List Call) :=
   if !r.inSync then some (r, [])
   else
     -- resolve pending policy updates whose metadata is known; the others stay pending
     let known := r.pending.filter (fun k => (mget r.allPolicies k).isSome)
-    let s := known.foldl (fun s k => match mget r.allPolicies k with
-      | some m => (s.updatePolicy k (some m)).1
-      | none => s) r.sorter
+    let s := known.foldl (Sorter.resolvePending r.allPolicies) r.sorter
     let r := { r with sorter := s, pending := r.pending.filter (fun k => (mget r.allPolicies k).isNone) }
     match r.sorter.sortedOut with
     | none => none
